@@ -127,19 +127,30 @@ func c15Monitor(r *mc.Run, c lockCfg) engb.Monitor {
 		mid, post := res.AfterBegin, res.Post
 		now := post.Time
 
-		// 1. maturity sweep at the beginning of the block
-		preQ, midQ := queueIDs(res.Pre.Queue.Unlocks), queueIDs(mid.Queue.Unlocks)
-		if len(midQ) < len(preQ) {
-			viol("delivery-queue-shrank-in-begin-block", fmt.Sprintf("%v -> %v", preQ, midQ))
+		// 1. which unlocks reached the delivery queue in this block (wherever in the block the
+		// maturity sweep runs): delivered ++ remaining queue must extend the previous queue
+		var deliv []uint64
+		if res.TxErr == nil {
+			for _, tx := range res.Delivered {
+				if cu, ok := tx.Inner.(*goattypes.CompleteUnlockTx); ok {
+					deliv = append(deliv, cu.Id)
+				}
+			}
+		}
+		preQ := queueIDs(res.Pre.Queue.Unlocks)
+		allQ := append(append([]uint64{}, deliv...), queueIDs(post.Queue.Unlocks)...)
+		if len(allQ) < len(preQ) {
+			viol("delivery-queue-lost-entries", fmt.Sprintf("%v -> delivered %v + queue %v", preQ, deliv, queueIDs(post.Queue.Unlocks)))
 			return
 		}
 		for i := range preQ {
-			if preQ[i] != midQ[i] {
-				viol("delivery-queue-reordered", fmt.Sprintf("%v -> %v", preQ, midQ))
+			if preQ[i] != allQ[i] {
+				viol("delivery-queue-reordered", fmt.Sprintf("%v -> %v", preQ, allQ))
 				return
 			}
 		}
-		matured := midQ[len(preQ):]
+		matured := allQ[len(preQ):]
+		_ = mid
 		pend := map[uint64]c15Pending{}
 		for _, p := range aux.Pending {
 			pend[p.ID] = p
@@ -194,23 +205,11 @@ func c15Monitor(r *mc.Run, c lockCfg) engb.Monitor {
 
 		// 2. hand-over: FIFO, at most 16, once
 		if res.TxErr == nil {
-			var deliv []uint64
-			for _, tx := range res.Delivered {
-				if cu, ok := tx.Inner.(*goattypes.CompleteUnlockTx); ok {
-					deliv = append(deliv, cu.Id)
-				}
-			}
-			n := len(aux.InQueue)
-			if n > 16 {
-				n = 16
-			}
 			if len(deliv) > 16 {
 				viol("more-than-16-unlocks-delivered", fmt.Sprint(deliv))
 			}
-			if fmt.Sprint(deliv) != fmt.Sprint(aux.InQueue[:len(deliv)]) {
+			if len(deliv) > len(aux.InQueue) || fmt.Sprint(deliv) != fmt.Sprint(aux.InQueue[:len(deliv)]) {
 				viol("unlock-delivery-not-fifo", fmt.Sprintf("delivered %v, queue %v", deliv, aux.InQueue))
-			} else if len(deliv) != n {
-				r.Outcome("delivered-fewer-than-cap")
 			}
 			for _, id := range deliv {
 				if aux.Delivered[id] {
